@@ -794,6 +794,7 @@ func check(prop string, pc propCfg, tier string, base uint64, runsOv, secsOv int
 	}
 
 	// violations
+	os.RemoveAll(filepath.Join(verifDir, "replays", prop))
 	known := loadKnown()
 	exit := 0
 	nviol := 0
